@@ -655,7 +655,7 @@ pub fn execute(sc: &K18) -> Outcome {
                 let mut ac = BTreeMap::new();
                 for key in tr.keys() {
                     if let Some(d) = tr.aircraft_details(*key) {
-                        ac.insert(format!("{key}"), (tr.get(*key).unwrap().callsign.clone(), d.position.latitude, d.position.longitude));
+                        ac.insert(format!("{:02x}{:02x}{:02x}", key.0[0], key.0[1], key.0[2]), (tr.get(*key).unwrap().callsign.clone(), d.position.latitude, d.position.longitude));
                     }
                 }
                 snaps.insert(*k, RefSnap { table: table_of(&tr), len: tr.len(), total_added, most, ac });
